@@ -418,3 +418,29 @@ def valueset_intervals(body, maxv=0x10FFFF, callee=None, extra_consts=()):
 
 def in_intervals(iv, v):
     return any(a <= v <= b for a, b in iv)
+
+
+def run_witnesses(ctx, rule, wanted):
+    """Thorough tier: compile-fail witnesses (rustdoc `compile_fail,E0xxx` with compiling `no_run` twins).
+    Nothing of quick-xml is executed; the harness crate path-depends on /repo."""
+    import os, shutil, subprocess, re
+    from facts import VERIF, REPO
+    w = os.path.join(VERIF, "witness")
+    lock = os.path.join(REPO, "Cargo.lock")
+    if os.path.exists(lock):
+        shutil.copy(lock, os.path.join(w, "Cargo.lock"))
+    env = dict(os.environ)
+    env["CARGO_TARGET_DIR"] = os.path.join(os.environ.get("VERIF_CACHE", os.path.join(VERIF, ".cache")), "witness-target")
+    env["CARGO_NET_OFFLINE"] = "true"
+    env.pop("RUSTC_WORKSPACE_WRAPPER", None)
+    p = subprocess.run(["cargo", "+nightly", "test", "--doc", "--offline"], cwd=w, env=env, stdout=subprocess.PIPE, stderr=subprocess.STDOUT, text=True)
+    res = {}
+    for m in re.finditer(r"test src/lib.rs - (\w+) \(line \d+\)( - compile fail| - compile)? \.\.\. (\w+)", p.stdout):
+        res.setdefault(m.group(1), []).append((m.group(2) == " - compile fail", m.group(3)))
+    for name in wanted:
+        rs = res.get(name, [])
+        cf = [r for r in rs if r[0]]
+        tw = [r for r in rs if not r[0]]
+        ok = bool(cf) and bool(tw) and all(r[1] == "ok" for r in rs)
+        ctx.ob(rule, "witness:" + name, ok, "compile-fail witness and its compiling twin: %s%s" % (rs, "" if rs else " | cargo output: " + p.stdout[-300:]))
+    return {"witnesses_run": sorted(res)}
